@@ -126,6 +126,9 @@ func (w *Worker) intrinsicHost(s *State, f *Frame, name string, fn *ssa.Function
 			re, _ := hostRegexps.Load(o.what[len("regexp:"):])
 			return adv(Bool(re.(*regexp.Regexp).MatchString(args[1].(string))))
 		}
+	case "(time.Time).Equal":
+		// only time values built by the models (zero / identical representations) occur: structural equality
+		return adv(w.deepEq(s, args[0], args[1], 0))
 	case "bytes.IndexByte":
 		if bs, ok := concreteBytes(s, args[0].(SliceV)); ok {
 			c := asTerm(args[1])
